@@ -91,3 +91,17 @@ let rec take k l = if k <= 0 then [] else match l with [] -> [] | x :: t -> x ::
 let take k l =
   let rec go k l acc = if k <= 0 then Stdlib.List.rev acc else match l with [] -> Stdlib.List.rev acc | x :: t -> go (k - 1) t (x :: acc) in
   go k l []
+
+
+(* ---- extraction cross-check inside Coq (see c18.ml): the digest (NgDigest.v) of the session result
+   computed by this extracted runner must equal the one Coq computes by vm_compute *)
+let ng_coq_header = "From GP Require Import Base NgModel NgDigest.\n"
+let coq_ropts (r : ropts) : string =
+  Printf.sprintf "(mkRo %s %s %s %s)" (coq_bool r.ro_mixed) (coq_bool r.ro_errmis) (coq_bool r.ro_skipver) (coq_bool r.ro_zc)
+let coq_event (e : event) : string = match e with Chunk l -> "(Chunk " ^ coq_zlist l ^ ")" | Fail -> "Fail"
+let ng_coq_flat (out : out_channel) (name : string) (ro : ropts) (d : BinNums.coq_Z list) : unit =
+  coq_example_named out name (Printf.sprintf "ng_digest_flat %s %s" (coq_ropts ro) (coq_zlist d))
+    (coq_zlist (NgDigest.ng_digest_flat ro d))
+let ng_coq_chunked (out : out_channel) (name : string) (ro : ropts) (ev : event list) : unit =
+  coq_example_named out name (Printf.sprintf "ng_digest_chunked %s %s" (coq_ropts ro) (coq_list coq_event ev))
+    (coq_zlist (NgDigest.ng_digest_chunked ro ev))
